@@ -444,7 +444,7 @@ func runHCScript(rng *Rng, respStream bool, nsteps int, fixed []string) *hcScrip
 	// reader goroutine must be gone by itself (the stream cancels its own context), whatever else the server still sends
 	if sc.tooMany {
 		eng.settle()
-		deadline := time.Now().Add(300 * time.Millisecond)
+		deadline := time.Now().Add(3 * time.Second) // (only waited out when the goroutine really stays)
 		for stacksWith("httpgrpc.(*clientStream).doHttpCall") > 0 && time.Now().Before(deadline) {
 			time.Sleep(2 * time.Millisecond)
 		}
